@@ -184,6 +184,39 @@ def from_and_where(res):
                               {'from': f, 'where': w}, (len(both), [tuple(r) for r in both][:3]), (len(want), [tuple(r) for r in want][:3]))
 
 
+def regex_and_constants(res):
+    """the match operators are regular-expression searches (case-insensitive) whatever the pattern looks like - escapes, classes,
+    anchors, plain text; and NULL-aware operators on constant NULLs follow the truth tables"""
+    import re
+    conn = conn_for(R.ROWS)
+    names = list(R.COLTYPES)
+    si, ui = names.index('s'), names.index('u')
+    pats = ['\\w\\w\\w', '\\d', 'a\\.c', '\\bb\\b', '^a', 'c$', 'B', 'b|y', '[xy]', 'a.c', '\\s', 'ab?c', '']
+    for pat in pats:
+        pyp = pat.replace('\\\\', '\\')
+        for col, ci in (('s', si), ('u', ui)):
+            for op, neg in (('~', False), ('!~', True)):
+                q = f"SELECT {col} {op} '{pyp}' FROM #t"
+                res.case(('regex', q), {'query': q})
+                try:
+                    got = [r[0] for r in conn.execute(q).fetchall()]
+                except Exception as e:  # noqa
+                    res.violation('h01:regex:' + q, 'match operators execute for every regular expression', {'query': q}, f'{type(e).__name__}: {e}', 'values')
+                    continue
+                want = []
+                for row in R.ROWS:
+                    v = row[ci]
+                    if v is None:
+                        want.append(None)
+                    else:
+                        m = bool(re.search(pyp, v, re.IGNORECASE))
+                        want.append((not m) if neg else m)
+                if got != want:
+                    res.violation('h01:regex:' + q, 'x ~ p is a case-insensitive regular expression search of p in x, NULL if either is NULL; !~ its negation', {'query': q}, got, want)
+    from harness.h09 import check_const_truth
+    check_const_truth(res)
+
+
 def build_items(tier, seed):
     rng = random.Random(seed)
     allrows = tuple(range(len(R.ROWS)))
@@ -227,6 +260,7 @@ def run(tier, seed):
     registry_sweep(res)
     lookup_contract(res, random.Random(seed), 300 if tier == 'quick' else 5000)
     from_and_where(res)
+    regex_and_constants(res)
     res.scopes = {'depth1_exhaustive': True, 'rows': len(R.ROWS)}
     return res.asdict()
 
